@@ -578,7 +578,54 @@ def conc_worker(args):
     return res
 
 
+def run_miri(ops, timeout=2400):
+    """Runs the harness on `ops` under Miri (supporting validation of the memory-safety and drop
+    properties: use of freed memory, invalid pointer use and leaks in the *real* code paths,
+    which a plain debug build can pass silently). Returns (ok, detail)."""
+    env = {"MIRIFLAGS": "-Zmiri-disable-isolation", "CARGO_NET_OFFLINE": "true",
+           "CARGO_TARGET_DIR": os.path.join(HARNESS, "target", "miri")}
+    try:
+        rc, out, err = run(["cargo", "+nightly", "miri", "run", "--offline", "--", "run"], cwd=HARNESS,
+                           inp=ops, timeout=timeout, env=env)
+    except subprocess.TimeoutExpired:
+        return None, "miri run did not finish"
+    text = out + err
+    bad = re.search(r"Undefined Behavior|memory leaked|error: deadlock", text)
+    if bad:
+        i = text.find(bad.group(0))
+        return False, text[max(0, i - 200):i + 1200]
+    if rc != 0:
+        return None, "miri exited with " + str(rc) + ": " + text[-400:]
+    return True, out
+
+
+def miri_worker(args):
+    (prop, kind, seed, ncases, length, profile, mode, oracle_id) = args
+    kind = kind[len("miri-"):]
+    ops = gen_ops(kind, seed, ncases, length, profile)
+    res = {"kind": "miri-" + kind, "seed": seed, "profile": profile, "ncases": ncases, "ierr": None, "merr": None,
+           "disagree": [], "oracle_fail": [], "nontrivial": ncases, "ops": len(ops.splitlines()), "hist": {},
+           "sample": None}
+    ok, detail = run_miri(ops)
+    if ok is None:
+        res["note"] = "miri could not run this batch (not counted): " + detail[:200]
+        res["nontrivial"] = 0
+    elif not ok:
+        # find the case: run the cases one by one
+        for idx, c in enumerate(split_cases(ops)):
+            ok1, d1 = run_miri("\n".join(c) + "\n", timeout=900)
+            if ok1 is False:
+                res["oracle_fail"].append({"case": idx, "verdict": "miri: " + d1[:300], "ops": c, "recorded": True})
+                break
+        else:
+            res["oracle_fail"].append({"case": 0, "verdict": "miri: " + detail[:300], "ops": ops.splitlines(),
+                                       "recorded": True})
+    return res
+
+
 def worker(args):
+    if args[1].startswith("miri-"):
+        return miri_worker(args)
     if args[1].startswith("meta-"):
         return meta_worker(args)
     if args[1] in ("conc", "iterw"):
@@ -772,10 +819,11 @@ def main():
                                       "impl": "", "model": ""})
         jobs = []
         mult = cfg.get("thorough_mult", 150) if tier == "thorough" else cfg.get("quick_mult", 3)
-        for ci, comp in enumerate(cfg["components"]):
+        comps = list(cfg["components"]) + (list(cfg.get("thorough_components", [])) if tier == "thorough" else [])
+        for ci, comp in enumerate(comps):
             kind, profiles, ncases, length = comp
             for pi, prof in enumerate(profiles):
-                n = ncases * mult
+                n = ncases if kind.startswith("miri-") else ncases * mult
                 per = max(1, min(n, 150))
                 for b in range((n + per - 1) // per):
                     jobs.append((prop, kind, seed * 7919 + ci * 101 + pi * 13 + b * 1009,
